@@ -147,7 +147,7 @@ func zzC11_sign(algoIdx, hasherKind int) {
 	msg := nondetBytes(2)
 	h := ecdsaHasher(hasherKind)
 	// natively the library's (r, s) are random: the replay repeats the signing so that short r / s occur
-	for it := 0; it < verifNativeRepeat(6000) && len(VerifFailures) == 0; it++ {
+	for it := 0; it < verifNativeRepeat(6000) && !verifFailed(); it++ {
 		sig, err := sk.Sign(msg, h)
 		verifAssert(err == nil, "Sign succeeds")
 		verifAssert(len(sig) == 64, "signature is 64 bytes")
